@@ -122,7 +122,7 @@ def evaluate(e, world, env: dict, ienv: dict | None = None, default_pop: str = T
                     raise Undefined(f"free variable {v.name}")
                 val = env[v.name]
             else:
-                if v.name in bound and not v.star:
+                if v.name in bound:
                     raise Undefined("ill-scoped")
                 val = 1 if v.star else 0
             do = {}
